@@ -27,9 +27,11 @@ fn main() {
         "c06" => checks::c06::run(&args),
         "c07" | "c07-worker" => checks::c07::run(&args),
         "c08" => checks::server_props::run(Which::C08, &args),
+        "c10" => checks::c10::run(&args),
         "c11" => checks::c11::run(&args),
         "c12" => checks::c12::run(&args),
         "c17" => checks::server_props::run(Which::C17, &args),
+        "c20" => checks::c20::run(&args),
         other => {
             eprintln!("unknown check {other}");
             EXIT_INCONCLUSIVE
